@@ -113,6 +113,8 @@ pub struct StateMachine<'a> {
     pub handled_diff_header_header_line_file_pair: Option<(String, String)>,
     pub blame_key_colors: HashMap<String, String>,
     pub minus_line_counter: AmbiguousDiffMinusCounter,
+    // Between the 'GIT binary patch' line of a file section and the end of that section
+    pub in_binary_patch: bool,
     // The HunkHeader state and the '-Subproject commit' line (line, raw_line) that it was left for
     pub pending_submodule_short_line: Option<(State, String, String)>,
 }
@@ -143,6 +145,7 @@ impl<'a> StateMachine<'a> {
             config,
             blame_key_colors: HashMap::new(),
             minus_line_counter: AmbiguousDiffMinusCounter::not_needed(),
+            in_binary_patch: false,
             pending_submodule_short_line: None,
         }
     }
@@ -330,14 +333,20 @@ impl<'a> StateMachine<'a> {
         if !self.should_skip_line() {
             return Ok(false);
         }
-        if is_file_metadata_line(&self.line) {
+        if self.line == "GIT binary patch" {
+            self.in_binary_patch = true;
+        }
+        if is_file_metadata_line(&self.line, self.in_binary_patch) {
             return Ok(true);
         }
         // Not a line of the header: after a section without hunks (a pure rename, a mode change,
         // a binary or an empty file) this is e.g. the 'hash subject' line of the next commit in
         // `git log --oneline -p`. It is passed on, after the header that was waiting for the
-        // end of its section.
+        // end of its section - and with it the section is over: what follows is not looked at
+        // as header lines any more.
         self.handle_pending_line_with_diff_name()?;
+        self.state = State::Unknown;
+        self.in_binary_patch = false;
         Ok(false)
     }
 
@@ -365,7 +374,7 @@ impl<'a> StateMachine<'a> {
 /// Is this one of the lines that may stand between the 'diff' line of a file section and its
 /// first hunk (the extended header lines of git, the data of a `git diff --binary` patch, the
 /// notes of diff -r)? Delta does not display them.
-fn is_file_metadata_line(line: &str) -> bool {
+fn is_file_metadata_line(line: &str, in_binary_patch: bool) -> bool {
     lazy_static! {
         static ref FILE_METADATA_LINE_REGEX: Regex = Regex::new(
             r"(?x)^(
@@ -381,7 +390,9 @@ fn is_file_metadata_line(line: &str) -> bool {
         )
         .unwrap();
     }
-    line.trim().is_empty() || FILE_METADATA_LINE_REGEX.is_match(line) || is_binary_patch_data(line)
+    line.trim().is_empty()
+        || FILE_METADATA_LINE_REGEX.is_match(line)
+        || (in_binary_patch && is_binary_patch_data(line))
 }
 
 /// A data line of a `git diff --binary` patch: a letter that gives the number of bytes (A-Z: 1-26,
